@@ -121,19 +121,68 @@ def add_synthetic_streams(env, ctx, res) -> None:
     res.count('synthetic.streams')
 
 
+def add_structural_streams(env, ctx, res) -> None:
+    """Third synthetic stream: fragment layouts no fixture has, all legal and all read by the indexer.
+      audio: tfhd with neither base-data-offset-present nor default-base-is-moof
+      encrypted video and audio: senc boxes that carry the override fields (flags & 1)"""
+    from dlv.appenv import FIXTURES
+    fx = FIXTURES / 'bbb'
+    def override(name: str) -> bytes:
+        tenc = ib.index_file((fx / name).read_bytes()).tenc
+        return b'\0\0\1' + bytes([tenc['iv_size']]) + tenc['kid']
+    files = {
+        'sy3_v1': (fx / 'bbb_v7.mp4').read_bytes(),
+        'sy3_a1': restructure((fx / 'bbb_a1.mp4').read_bytes(), plain_base=True),
+        'sy3_v1_enc': restructure((fx / 'bbb_v7_enc.mp4').read_bytes(),
+                                  senc_override=override('bbb_v7_enc.mp4')),
+        'sy3_a1_enc': restructure((fx / 'bbb_a1_enc.mp4').read_bytes(), plain_base=True,
+                                  senc_override=override('bbb_a1_enc.mp4')),
+    }
+    for name, data in files.items():
+        assert len(ib.index_file(data).segments) == 10, name
+    spk = env.add_stream('sy3', title='Synthetic: plain tfhd base, senc override fields', files=files)
+    # The stored index of the two audio files is the one another indexer (or a populate script with its own
+    # JSON) would give: every segment begins at its styp box, "styp sidx moof mdat", where the project's own
+    # indexer starts a segment at the moof and lets the next fragment's styp and sidx trail it. The handlers
+    # serve whatever range the stored index names; with this one, removing the sidx moves the moof.
+    import copy
+    with env.app.app_context():
+        stream = env.models.Stream.get(pk=spk)
+        for mf in stream.media_files:
+            if mf.name not in ('sy3_a1', 'sy3_a1_enc'):
+                continue
+            sf = ib.index_file(files[mf.name])
+            rep = copy.deepcopy(dict(mf.rep))
+            assert len(rep['segments']) == len(sf.segments) + 1
+            rep['segments'][0]['size'] = sf.init_end - rep['segments'][0]['pos']
+            for seg, st in zip(rep['segments'][1:], sf.segments):
+                assert st.first_box == 'styp', st.first_box
+                seg['pos'], seg['size'] = st.start, st.end - st.start
+            mf.rep = rep
+        env.models.db.session.commit()
+        env.models.db.session.remove()
+    res.count('synthetic.streams')
+
+
 def _patch_sizes(m: bytearray, chain: list, delta: int) -> None:
     for b in chain:
         struct.pack_into('>I', m, b.start, struct.unpack_from('>I', m, b.start)[0] + delta)
 
 
 def restructure(buf: bytes, first_sequence: int | None = None, drop_tfdt: bool = False,
-                explicit_base: bool = False) -> bytes:
+                explicit_base: bool = False, plain_base: bool = False,
+                senc_override: bytes | None = None) -> bytes:
     """Re-lays a fragmented file out fragment by fragment (same payloads, same durations):
       first_sequence  mfhd sequence numbers count from this value instead of 1
       drop_tfdt       the tfdt box of every fragment is removed (decode times must be derived)
       explicit_base   tfhd carries an absolute base_data_offset (position of the moof box in the
                       stored file) instead of default-base-is-moof
-    sidx referenced sizes and trun data offsets are kept consistent with the new layout."""
+      plain_base      tfhd carries neither base-data-offset-present nor default-base-is-moof (14496-12
+                      8.8.7: the base of the first track fragment is then the start of the moof box too)
+      senc_override   20 bytes AlgorithmID(3) IV_size(1) KID(16): every senc box gets flags|=1 and these
+                      override fields in front of its sample count (first edition of 23001-7; the parser
+                      under test reads and writes them)
+    sidx referenced sizes, trun data offsets and saio offsets are kept consistent with the new layout."""
     root = ib.parse_file(buf)
     out = bytearray()
     pending_sidx = None        # (offset of the sidx in out, parsed box)
@@ -174,6 +223,34 @@ def restructure(buf: bytes, first_sequence: int | None = None, drop_tfdt: bool =
                 m[p + 4:p + 4] = b'\0' * 8
                 delta += 8
                 bases.append((len(out) + p + 4, len(out)))
+        if plain_base:
+            local = ib.parse_file(bytes(m)).children[0]
+            tf = local.find(b'traf', b'tfhd')
+            _, flags, p = ib.fullbox(m, tf)
+            assert not flags & 1
+            struct.pack_into('>I', m, tf.body, flags & ~0x20000)
+        if senc_override is not None:
+            assert len(senc_override) == 20
+            local = ib.parse_file(bytes(m)).children[0]
+            traf = local.find(b'traf')
+            se = traf.find(b'senc')
+            if se is not None:
+                _, flags, p = ib.fullbox(m, se)
+                struct.pack_into('>I', m, se.body, flags | 1)
+                _patch_sizes(m, [local, traf, se], 20)
+                m[p:p] = senc_override
+                delta += 20
+        if delta or senc_override is not None:
+            local = ib.parse_file(bytes(m)).children[0]
+            so, se = local.find(b'traf', b'saio'), local.find(b'traf', b'senc')
+            if so is not None and se is not None:
+                sv, sflags, sp = ib.fullbox(m, so)
+                if sflags & 1:
+                    sp += 8
+                _, eflags, ep = ib.fullbox(m, se)
+                first_entry = ep + (20 if eflags & 1 else 0) + 4
+                assert struct.unpack_from('>I', m, sp)[0] == 1
+                struct.pack_into('>Q' if sv else '>I', m, sp + 4, first_entry)
         if delta:
             local = ib.parse_file(bytes(m)).children[0]
             tr = local.find(b'traf', b'trun')
